@@ -159,6 +159,7 @@ class RecordMonitor(Monitor):
         self.notes = notes
         self.express = set(express)
         self.frozen = {}            # arn -> terminal snapshot
+        self.reported = {}
         self.hist_len = {}
         self.terminal_hist = {}
         world.step_hooks.append(self.on_step)
@@ -184,8 +185,8 @@ class RecordMonitor(Monitor):
                     if rec or hists.get(arn):
                         self.flag("R-express-has-record-or-history", arn=arn)
                     continue
-                if rec is None:
-                    continue
+                if not rec:
+                    continue            # (a Redis-backed store returns an empty proxy for a missing key)
                 rec = dict(rec)
                 self.seen["record_snapshots"] += 1
                 probs = shape_violations(rec)
@@ -215,7 +216,12 @@ class RecordMonitor(Monitor):
                 self.seen["history_snapshots"] += 1
                 self.seen["history_events_checked"] += len(h)
                 for rule, detail in history_violations(h, rec):
-                    self.flag(rule, arn=arn, detail=detail, types=[e.get("type") for e in h][-8:])
+                    # a persisting condition is reported once, and again only when the history has grown since
+                    key = (iid, arn, rule)
+                    if self.reported.get(key) == len(h):
+                        continue
+                    self.reported[key] = len(h)
+                    self.flag(rule, arn=arn, detail=detail, types=[e.get("type") for e in h][-8:], history_len=len(h))
                 if h and h[0].get("type") == "ExecutionStarted" and not w.crashes:
                     if h[0].get("executionStartedEventDetails", {}).get("input") != rec.get("input"):
                         self.flag("H-started-input", arn=arn)
